@@ -155,6 +155,13 @@ func helperSS(dir string, connect bool, issue bool, tableFile string) startOut {
 	res := runSched(func() {
 		s := sched.Cur()
 		cw, sw := wire.Pipe("client", "server")
+		if a := os.Getenv("VERIF_C18_SS_ADDR"); a != "" {
+			// which bridge this connection goes to (the ticket store is keyed by
+			// the address of the connection the dial function returns)
+			if ta, err := net.ResolveTCPAddr("tcp", a); err == nil {
+				cw.Remote = ta
+			}
+		}
 		_ = s
 		done := false
 		s.Spawn("ref-server", func() {
@@ -993,6 +1000,48 @@ func ticketScenario(thorough bool) mc.Scenario {
 	}}
 }
 
+// twoBridgeTickets: a client that uses two bridges; every helper call is a new
+// process (a restart). Once the store holds a ticket of each bridge, every
+// later connection to either bridge works and presents a ticket that bridge
+// issued (each bridge has its own table) or none: persisted tickets are at
+// worst forgotten, never replaced by something else.
+func twoBridgeTickets() mc.Scenario {
+	return mc.Scenario{Name: "tickets/two-bridges", Weight: 10, Run: func(c *mc.Ctx) {
+		helperScope, helperCalls = "tickets/two-bridges", 0
+		dir := workDir("ss2")
+		defer os.RemoveAll(dir)
+		defer os.Unsetenv("VERIF_C18_SS_ADDR")
+		addrs := map[string]string{"A": "192.0.2.77:443", "B": "198.51.100.9:9001"}
+		tables := map[string]string{}
+		for b := range addrs {
+			tables[b] = filepath.Join(os.Getenv("VERIF_WORK"), fmt.Sprintf("c18-%d-%s.table", os.Getpid(), b))
+			defer os.Remove(tables[b])
+		}
+		var sum []string
+		for i, b := range []string{"A", "B", "A", "B", "B", "A"} {
+			os.Setenv("VERIF_C18_SS_ADDR", addrs[b])
+			o, err := runHelper("", "ss-connect", dir, "1", tables[b])
+			c.AddExecutions(1)
+			what := fmt.Sprintf("connection %d (to bridge %s; one start per connection, tickets of both bridges stored)", i+1, b)
+			if err != nil {
+				fail(c, "machinery", "helper", "%s: %v", what, err)
+				return
+			}
+			if !o.OK {
+				fail(c, "tickets", "tickets/two-bridges/connect-fails", "%s: %s", what, o.Err)
+				return
+			}
+			sum = append(sum, b+":"+o.Kind)
+			if i < 2 && o.Kind != "uniformdh" {
+				fail(c, "tickets", "tickets/two-bridges/kind", "%s: the server saw a %s handshake before it had issued any ticket", what, o.Kind)
+				return
+			}
+		}
+		c.Observe("two-bridges", fmt.Sprint(sum))
+		c.AddDistinct(1)
+	}}
+}
+
 func main() {
 	self, _ = os.Executable()
 	if len(os.Args) > 2 && os.Args[1] == "helper" {
@@ -1041,5 +1090,6 @@ func main() {
 			}
 		}
 		emit(ticketScenario(cfg.Thorough()))
+		emit(twoBridgeTickets())
 	})
 }
